@@ -81,6 +81,51 @@ def checks_table():
     return "\n".join(rows)
 
 
+def seed_stats():
+    import collections
+    first = collections.defaultdict(collections.Counter)
+    final = collections.defaultdict(collections.Counter)
+    for d in sorted((V / "seeded").iterdir()):
+        if not (d / "meta.json").exists():
+            continue
+        m = json.loads((d / "meta.json").read_text())
+        r = json.loads((d / "result.json").read_text()) if (d / "result.json").exists() else {}
+        k = int(d.name.split("-")[1])
+        rnd = m.get("round") or (1 if k <= 3 else 2 if k <= 6 else 3)
+        note = m.get("coordinator_note", "")
+        if rnd >= 2 and not note:
+            f = "unrecorded"
+        elif re.search(r"MISSED|NOT detected|not detected|NOT yet detected|counts as NOT", note):
+            f = "missed"
+        elif re.search(r"EXIT 2|INFRA", note):
+            f = "infrastructure exit (counted as a miss)"
+        elif re.search(r"first run[^.;|]*(broken tie|tie only|tie break|no-failing-input-found|proof obligation)|round \d, first run: tie only|reported only (as|through) a (broken tie|failed proof)", note):
+            f = "reported, no failing input found"
+        else:
+            f = "reported with a concrete input"
+        first[rnd][f] += 1
+        viol = [l for l in r.get("lines", []) if l.startswith("VIOLATION")]
+        if r.get("exit") == 1 and viol:
+            g = "reported, no failing input found" if "no-failing-input-found" in viol[0] else "reported with a concrete input"
+        elif r.get("exit") == 0:
+            g = "missed"
+        elif not r:
+            g = "not run"
+        else:
+            g = f"exit {r.get('exit')}"
+        final[rnd][g] += 1
+    cols = ["reported with a concrete input", "reported, no failing input found", "missed", "infrastructure exit (counted as a miss)"]
+    rows = ["| round | seeds | first run: concrete input | first run: tie/proof only | first run: missed | first run: infra exit | latest run: concrete input | latest: tie/proof only | latest: missed / other |", "|---|---|---|---|---|---|---|---|---|"]
+    for rnd in sorted(first):
+        n = sum(first[rnd].values())
+        fl = final[rnd]
+        other = sum(v for k2, v in fl.items() if k2 not in cols[:2])
+        if first[rnd]["unrecorded"]:
+            n = f"{n} ({first[rnd]['unrecorded']} not yet run)"
+        rows.append(f"| {rnd} | {n} | {first[rnd][cols[0]]} | {first[rnd][cols[1]]} | {first[rnd][cols[2]]} | {first[rnd][cols[3]]} | {fl[cols[0]]} | {fl[cols[1]]} | {other} |")
+    return "\n".join(rows)
+
+
 def theorems_table():
     rows = ["| id | # | theorems in `lean/OV/Props/Cxx.lean` (names; `_partial` = proved under a stated extra hypothesis, `_refuted`/`_witness` = kernel-checked counterexample) |", "|---|---|---|"]
     for f in sorted((V / "lean" / "OV" / "Props").glob("C*.lean")):
@@ -106,6 +151,7 @@ def main():
     t = replace(t, "fixed-findings", f)
     t = replace(t, "checks", checks_table())
     t = replace(t, "theorems", theorems_table())
+    t = replace(t, "seedstats", seed_stats())
     p.write_text(t)
     print("open findings:", no, "fixed:", nf)
 
